@@ -20,16 +20,38 @@ type Std struct {
 }
 
 func NewStd(k *Kernel, cfg KeyCfg) *Std {
+	s, _ := NewStdSql(k, cfg, nil)
+	return s
+}
+
+// NewStdSql is NewStd with the named nodes on the real sqlite backend. The
+// returned cleanup closes and removes the database files.
+func NewStdSql(k *Kernel, cfg KeyCfg, sqlNodes map[string]bool) (*Std, func()) {
 	w := NewWorld(k)
+	var cleanups []func()
+	add := func(name, mfgRole, ownerRole string) *Node {
+		if sqlNodes[name] {
+			n, c, err := w.AddSqlNode(name, mfgRole, ownerRole)
+			if err != nil {
+				panic(fmt.Sprintf("sqlite node %s: %v", name, err))
+			}
+			cleanups = append(cleanups, c)
+			return n
+		}
+		return w.AddSimNode(name, mfgRole, ownerRole)
+	}
 	for _, m := range []string{"mfg", "mfg2"} {
-		n := w.AddSimNode(m, m, "")
-		n.MfgBits = cfg.Bits
+		add(m, m, "").MfgBits = cfg.Bits
 	}
-	w.AddSimNode("rv", "", "")
+	add("rv", "", "")
 	for _, o := range []string{"owner1", "owner2", "owner3"} {
-		w.AddSimNode(o, "", o)
+		add(o, "", o)
 	}
-	return &Std{World: w, Cfg: cfg}
+	return &Std{World: w, Cfg: cfg}, func() {
+		for _, c := range cleanups {
+			c()
+		}
+	}
 }
 
 // Provision runs DI for a new device at mfgNode and extends the voucher along
